@@ -31,7 +31,8 @@ def build_case(cid, rng):
     cty = ty_f(cid)
     m = tg.random_method(rng, "subj", allow_async=True, allow_generic=False, max_arity=4)
     byval = rng.random() < 0.15
-    explicit_lt = (not byval) and rng.random() < 0.3
+    static_lt = (not byval) and rng.random() < 0.15      # `deps: &'static C`: a lifetime the fn does not declare
+    explicit_lt = (not byval) and (not static_lt) and rng.random() < 0.3
     if m.ret == "borrow_self":
         if byval:
             m.ret = "owned"
@@ -42,7 +43,12 @@ def build_case(cid, rng):
                 m.lifetimes.insert(0, "'a")
     elif explicit_lt:
         m.lifetimes.insert(0, "'a")
-    lt = "'a " if explicit_lt else ""
+    if static_lt:
+        explicit_lt = False
+        m.lifetimes = [l for l in m.lifetimes if l != "'a"]
+        if m.ret == "borrow_self":
+            m.self_lt = "'static"
+    lt = "'a " if explicit_lt else ("'static " if static_lt else "")
     dty = cty if byval else "&%s%s" % (lt, cty)
     # lifetime relations written as where-predicates (kept on the method, never lifted to the trait)
     where = ""
@@ -81,6 +87,11 @@ def build_case(cid, rng):
                 ("on_c", "let c = %s;" % ctor_f("on_c"), "&c", lambda a: "c.subj(%s)" % ", ".join(a)),
                 ("on_impl_c", "let c = ::entrait::Impl::new(%s);" % ctor_f("on_impl_c"), "&*c", lambda a: "c.subj(%s)" % ", ".join(a)),
                 ("on_impl_app", "let c = ::entrait::Impl::new(App { pad: 1, cfg: %s });" % ctor_f("on_impl_app"), "&c.cfg", lambda a: "c.subj(%s)" % ", ".join(a))]
+    if static_lt:
+        variants = [("direct", "let c: &'static %s = ::std::boxed::Box::leak(::std::boxed::Box::new(%s));" % (cty, ctor_f("direct")), "c", lambda a: "subj(%s)" % ", ".join(["c"] + a)),
+                    ("on_c", "let c: &'static %s = ::std::boxed::Box::leak(::std::boxed::Box::new(%s));" % (cty, ctor_f("on_c")), "c", lambda a: "c.subj(%s)" % ", ".join(a)),
+                    ("on_impl_c", "let c: &'static ::entrait::Impl<%s> = ::std::boxed::Box::leak(::std::boxed::Box::new(::entrait::Impl::new(%s)));" % (cty, ctor_f("on_impl_c")), "&**c", lambda a: "c.subj(%s)" % ", ".join(a)),
+                    ("on_impl_app", "let c: &'static ::entrait::Impl<App> = ::std::boxed::Box::leak(::std::boxed::Box::new(::entrait::Impl::new(App { pad: 1, cfg: %s })));" % ctor_f("on_impl_app"), "&c.cfg", lambda a: "c.subj(%s)" % ", ".join(a))]
     for vi, (lab, setup, addr_of, callf) in enumerate(variants):
         s1, e1, d1 = m.call_args(1, "v%d" % vi)
         D.append("    {")
@@ -92,7 +103,7 @@ def build_case(cid, rng):
         args = d1
     D.append("}")
     nt = shape != "ident" or m.is_async or m.ret == "borrow_self"
-    meta = {"shape": shape, "byval": byval, "async": m.is_async, "ret": m.ret, "fn": fid, "args": args, "nontrivial": nt,
+    meta = {"shape": shape, "byval": byval, "static_lifetime": static_lt, "async": m.is_async, "ret": m.ret, "fn": fid, "args": args, "nontrivial": nt,
             "sig": "%s(%s)%s" % ("async " if m.is_async else "", ", ".join(ps), m.ret_text())}
     return Case(cid, "\n".join(L + D) + "\n", meta=meta)
 
@@ -161,7 +172,7 @@ def check_case(c, rep, pinned=None):
     nested = [r for r in recs if tok.item_kind(r["input"])["kind"] == "trait"]
     if len(nested) != 1:
         rep.violation(c.id, "nested-expansions:%d" % len(nested), "the generated trait was entraited %d times" % len(nested), pinned=pinned)
-    rep.bucket("shapes", m["shape"])
+    rep.bucket("shapes", m["shape"] + ("/&'static" if m.get("static_lifetime") else ""))
     rep.count(c.sig(), m["nontrivial"])
     rep.sample({"case": c.id, "shape": m["shape"], "sig": m["sig"], "facts": f, "on_impl_app": ph["on_impl_app"]}, limit=3)
 
